@@ -180,11 +180,15 @@ func c13streamChild(raw json.RawMessage, scratch string) {
 		grng := base.At(uint64(1000000 + g))
 		cfg := e2eCfg{TargetDB: -1, SenderCount: uint(grng.Pick(1, 3, 64, 1024)), SenderSize: 1 << 30, Parallel: 2}
 		name := ""
-		switch g / 3 % 3 {
+		switch g / 3 % 5 {
 		case 0:
 			name, cfg.KeyWhite = "whitelist", []string{"ok:", "also-ok"}
 		case 1:
 			name, cfg.KeyBlack = "blacklist", []string{"no:", "never"}
+		case 2:
+			name, cfg.KeyWhite = "whitelist-long-first", []string{"also-ok-but-much-longer-than-any-key", "ok:"}
+		case 3:
+			name, cfg.KeyBlack = "blacklist-long-first", []string{"never-ever-and-longer-than-any-key", "no:"}
 		default:
 			name = "nofilter"
 		}
